@@ -374,6 +374,7 @@ pub fn run_level_b(
     std::fs::create_dir_all(&root).expect("create level-B root");
     let mut extra: Vec<Mismatch> = Vec::new();
     let mut harness_notes: Vec<String> = Vec::new();
+    let mut foreign_requests = 0usize;
 
     // ---- the tree (creation order from the plan)
     let use_git = plan.create_seed % 4 == 0 && !world.is_terminal();
@@ -587,6 +588,29 @@ pub fn run_level_b(
         drop(e);
         rr.net_log = log.lock().unwrap().clone();
     }
+    // Loopback is shared with whatever else runs on the machine: a request that carries none of
+    // this world's tokens comes from some other process (e.g. another check's "refused" scenario
+    // that was handed a recycled port number) and is not an observation of this run. Level A,
+    // where the transport is in-process, has no such noise and keeps the strict monitor.
+    {
+        let mut own: std::collections::BTreeSet<String> = std::collections::BTreeSet::new();
+        for f in &world.files {
+            for_each_block(&f.blocks, &mut |b| {
+                if let Some(t) = b.attr("check-ai").and_then(model::find_ai_token) {
+                    own.insert(t);
+                }
+            });
+        }
+        let before = rr.net_log.len();
+        rr.net_log.retain(|e| match e {
+            NetEvent::Request { request, .. } => own.contains(&request.token),
+            NetEvent::Reply { token, .. } => own.contains(token),
+            _ => true,
+        });
+        if rr.net_log.len() != before {
+            foreign_requests = before - rr.net_log.len();
+        }
+    }
     rr.lua_calls = lua::read_call_log(&root);
     rr.obs = Some(obs.clone());
 
@@ -625,7 +649,7 @@ pub fn run_level_b(
     v["level_b"] = serde_json::json!({
         "exit_code": exit_code, "stdout": tail(&stdout_s), "stderr": tail(&stderr_s),
         "cwd": cwd_rel, "cores": cores, "workers": plan.workers.max(1), "git_diff": git_diff.is_some(),
-        "stdin": stdin_text, "harness_notes": harness_notes.clone(),
+        "stdin": stdin_text, "harness_notes": harness_notes.clone(), "foreign_requests_ignored": foreign_requests,
     });
     let _ = std::fs::remove_dir_all(&base);
     ChildReport {
